@@ -72,6 +72,22 @@ def jobs(tier):
         for base_side in (0, 1):
             out.append({"prop": PROP, "cfg": cfg, "order": "asc", "base": "B1", "scripts": [[], []],
                         "opts": {"unsynced_base": True, "base_side": base_side, "check_base": False}})
+    # a brand-new pair: empty roots created by the engine itself, the very first saved cursors (a provider's first cursor
+    # value may be 0 / empty), then the first files arrive
+    for cfg in cfgs:
+        for sc in ([[["create", "c"], ["create", "e"]], []], [[], [["create", "c"], ["create", "e"]]],
+                   [[["mkdir", "m"], ["create", "m/c"]], []], [[["create", "c"]], [["create", "e"]]]):
+            for uf in (False, True):
+                out.append({"prop": PROP, "cfg": cfg, "order": "asc", "base": [], "scripts": A.stamp(sc),
+                            "opts": {"users_first": True, "event_points": True} if uf else {"event_points": True}})
+    # established pair, several events per intake batch, each further event of the batch is a fault point
+    for cfg in cfgs:
+        for ops in ([["create", "c"], ["write", "a"]], [["rename", "d", "e"], ["create", "c"]], [["delete", "a"], ["mkdir", "m"]]):
+            for side in (0, 1):
+                sc = [[], []]
+                sc[side] = ops
+                out.append({"prop": PROP, "cfg": cfg, "order": "asc", "base": "B1", "scripts": A.stamp(sc),
+                            "opts": {"users_first": True, "event_points": True}})
     # a fault in the middle of conflict resolution (application resolver answering merged data / one side, loser dropped)
     for cfg in cfgs:
         for shape, path in (("write", "a"), ("create", "c")):
